@@ -301,7 +301,7 @@ def async_parts(tier):
 
 CHECKS = [
     dict(name='threads', fn=h_threads, parts=thread_parts, budget={'quick': 80, 'thorough': 900}, per_path_s=30),
-    dict(name='asyncio', fn=h_async, parts=async_parts, budget={'quick': 60, 'thorough': 300}, per_path_s=30),
+    dict(name='asyncio', fn=h_async, parts=async_parts, budget={'quick': 120, 'thorough': 300}, per_path_s=30),
 ]
 
 META = dict(
